@@ -293,6 +293,7 @@ LEVEL_TEXT = (
     "Bounded-exhaustive relation checking on tuples of real runs: for every base cell of the lattice and each of the four relations (Z decoupling, e+/e- with flipped polarisation, "
     "CC charge conjugation with arbitrary CKM, equal-charge quark rows in massless schemes) the related runs are executed and compared on every order key, bit-for-bit where the relation "
     "is an identity of floating-point operations and at 1e-13/1e-14 otherwise; PTO 3 cells (fl11 flavour class) are part of the quick lattice."
+    " S1-S3 are crossed with TMC modes and nuclear targets on a sub-lattice."
 )
 LEVEL_NOTE = "Trusted: numpy arithmetic. EW parameter values, CKM matrices, grids and kinematics outside the stated alphabets are not covered."
 TECHNIQUE = "bounded-exhaustive enumeration of base cells; differential relation oracles between tuples of real runs"
